@@ -22,7 +22,7 @@ PROPS = {
     "C25": ("C25", {"internal"}),
     "C30": ("C30", {"rel:eq_outcome_c30"}),
     "C31": ("C31", {"guard:nil", "guard:counters", "guard:cost", "guard:depth", "outcome:depth"}),
-    "C13": ("C13", {"cap", "outcome"}),
+    "C13": ("C13", {"cap", "cap:F5", "outcome"}),
 }
 
 SIZES = {  # (shards, cases per shard)
@@ -141,6 +141,8 @@ def _sig(prop, m):
         fl = set(inp.get("flags") or [])
         if "CANONICAL_INTS" in fl and "NO_UNKNOWN_OPS" not in fl and _has_noncanonical_guard_ext(_nest(inp["prog"])):
             return "C07:F9:canonical-ints-without-no-unknown-ops-makes-guard-with-noncanonical-extension-a-noop"
+    if m["kind"] == "cap:F5":
+        return "alloc:F5:substr-of-inline-atom-copies"
     return "%s:%s:%s" % (prop, m["kind"], C.sha256_str(json.dumps(inp, sort_keys=True))[:12])
 
 
